@@ -8,12 +8,16 @@ Driver for C14.  Protocol (one case = one document of one LSP session):
   chg <version> <k> (R <sl> <sc> <el> <ec> <hex> | F <hex>){k}     one didChange notification
   chgq ...               the same, but the state after it is not observed (no answer line)
   close
+  save                   textDocument/didSave
+  wchg <hex utf8 text|!> workspace/didChangeWatchedFiles CREATED/CHANGED for the document's file (or an
+                         indexing pass over it); the argument is the file's content, `!` = unreadable
+  wdel                   workspace/didChangeWatchedFiles DELETED for the document's file
   tok <a> <b>            a semantic token with byte range [a, b) of the current text
   eof                    position of the end of the text (offset_to_position(content, len))
   impl <...>             (ignored here)
   end
 Answers:
-  open/chg/close : `m v=<version> text=<hex> ed=<same|differ|na>`  (model of the server's copy;
+  open/chg/close/save/wchg/wdel : `m v=<version> text=<hex> ed=<same|differ|na>` or `m null ed=..`  (model of the server's copy;
                     `ed` compares it with the editor-side specification run on UTF-16 units:
                     `na` = the specification rejects the event as one no editor produces)
   tok            : `m <line> <col> <len>`     eof : `m <line> <col>`
@@ -101,18 +105,26 @@ def step (st : St) (line : String) : St × Option String :=
       | none => (st, some "bad-op")
     | _, _ => (st, some "bad-op")
   | ["close"] => event st .didClose
+  | ["save"] => event st .didSave
+  | ["wdel"] => event st .watchedDeleted
+  | ["wchg", h] =>
+    if h = "!" then event st (.watchedChanged none)
+    else match textOfHex? h with
+      | some t => event st (.watchedChanged (some t))
+      | none => (st, some "bad-op")
   | ["tok", a, b] =>
     match a.toNat?, b.toNat?, st.server with
     | some a, some b, some d =>
       let (l, c, n) := Impl.tokenPos d.text a b
       (st, some s!"m {l} {c} {n}")
+    | some _, some _, none => (st, some "m no-document")
     | _, _, _ => (st, some "bad-op")
   | ["eof"] =>
     match st.server with
     | some d =>
       let (l, c) := Impl.offsetToLineCol d.text (len8 d.text)
       (st, some s!"m {l} {c}")
-    | none => (st, some "bad-op")
+    | none => (st, some "m no-document")
   | [] => (st, none)
   | _ => (st, some "bad-op")
 
